@@ -19,4 +19,7 @@ def run(F, tier):
     rep.sample({"literals": r.get("literals")})
     rep.sample({"classifying_arms": r2.get("classifying_arms")})
     accept.u6(rep, F, "predicates")
+    # the block-3 values the classification reads (validation flag 119, MUR 108) must reach the model as written
+    import re
+    accept.u7(rep, F, ("block3", re.compile(r"^headers::UserHeader::parse$"), 1))
     return rep
